@@ -620,3 +620,130 @@ func genC17(g *Gen) {
 	s.op("stop")
 	s.emit(g)
 }
+
+// liferand: random histories over the whole operation alphabet (thorough tier): connections
+// opened and closed, pipelines with blocking / writing / panicking handlers, Unbind,
+// malformed frames, a client that stops reading, slow OnClose, then Stop.  The model
+// predicts every snapshot; nothing here is property-specific.
+func init() { generators["liferand"] = genLifeRand }
+
+func genLifeRand(g *Gen) {
+	r := g.rng
+	for i := 0; i < g.n; i++ {
+		cfg := "fixed"
+		if r.Intn(4) == 0 {
+			cfg += ":unbind=0"
+		}
+		if r.Intn(5) == 0 {
+			cfg += ":dflt=1"
+		}
+		s := newScen(cfg)
+		s.op("run 1 1")
+		var open []int // connections the scenario still talks to
+		total := 0
+		connect := func() {
+			s.op("connect")
+			open = append(open, total)
+			total++
+		}
+		for c := 1 + r.Intn(3); c > 0; c-- {
+			connect()
+		}
+		used := map[int]bool{}
+		held := false
+		drop := func(j int) { open = append(open[:j:j], open[j+1:]...) }
+		script := func() []string {
+			switch r.Intn(8) {
+			case 0:
+				return nil
+			case 1, 2:
+				return []string{"w"}
+			case 3:
+				b := 1 + r.Intn(3)
+				used[b] = true
+				return []string{"b" + strconv.Itoa(b)}
+			case 4:
+				b := 1 + r.Intn(3)
+				used[b] = true
+				return []string{"b" + strconv.Itoa(b), "w"}
+			case 5:
+				b := 1 + r.Intn(3)
+				used[b] = true
+				return []string{"w", "b" + strconv.Itoa(b), "w"}
+			case 6:
+				return []string{"w", "w"}
+			default:
+				if r.Intn(3) == 0 {
+					return []string{"p"}
+				}
+				return []string{"w"}
+			}
+		}
+		for k := 4 + r.Intn(9); k > 0; k-- {
+			if len(open) == 0 {
+				connect()
+				continue
+			}
+			j := r.Intn(len(open))
+			c := open[j]
+			switch r.Intn(12) {
+			case 0:
+				connect()
+			case 1:
+				s.op("close " + strconv.Itoa(c))
+				drop(j)
+			case 2:
+				for b := range used {
+					s.op("release " + strconv.Itoa(b))
+					delete(used, b)
+					break
+				}
+			case 3:
+				// a client that does not read, on a connection of its own (with other handlers
+				// of the same connection still to write, how much fits into the socket buffers
+				// before the big writer blocks would decide what they do: not determined)
+				s.op("connect")
+				nc := total
+				total++
+				s.op(fmt.Sprintf("stall %d 1", nc))
+				s.send(nc, s.req("normal", "W"))
+			case 4:
+				var items []string
+				for n := r.Intn(3); n > 0; n-- {
+					items = append(items, s.req("normal", script()...))
+				}
+				items = append(items, s.req("unbind"))
+				if r.Intn(2) == 0 {
+					items = append(items, s.req("normal", "w"))
+				}
+				s.send(c, items...)
+				drop(j)
+			case 5:
+				s.send(c, "bad")
+				drop(j)
+			case 6:
+				if !held && r.Intn(2) == 0 {
+					s.op("holdonclose 1")
+					held = true
+				}
+			default:
+				var items []string
+				for n := 1 + r.Intn(3); n > 0; n-- {
+					items = append(items, s.req("normal", script()...))
+				}
+				s.send(c, items...)
+			}
+		}
+		if r.Intn(3) == 0 {
+			s.op("stop") // Stop with handlers still on their barriers / OnClose still held
+		}
+		for b := range used {
+			s.op("release " + strconv.Itoa(b))
+		}
+		if held {
+			s.op("holdonclose 0")
+		}
+		s.op("stop")
+		s.emit(g)
+	}
+}
